@@ -69,6 +69,17 @@ def run(t):
     run.add_tlc(g, cfg2)
     _feed(run, vh, "replay-tokencache", g.beh, cfg2, extra=["1000"])
     ncache = len(g.beh)
+    # one real Cache under concurrent pinned/unpinned lookups with rotation and expiry; events validated by TokenCache_Trace
+    from checks.C14 import validate_cache
+    d = scratch("c15s")
+    try:
+        tr = os.path.join(d, "stress.ndjson")
+        o = parse_vh_json(run_vh(vh, ["cache-stress", "-n", "3000" if t == "quick" else "30000", "-c", "8", "-trace", tr], timeout=600), "cache-stress")
+        _absorb(run, o)
+        evs = [json.loads(l) for l in open(tr)]
+        validate_cache(run, [dict(e, c="stress") for e in evs], "cache-stress")
+    finally:
+        shutil.rmtree(d, ignore_errors=True)
     # classification across the real RPC boundary, cookie gate, pinning
     o = parse_vh_json(run_vh(vh, ["worker-classify"], timeout=300), "classify")
     _absorb(run, o)
